@@ -106,7 +106,7 @@ func run(r *mon.Run) {
 	}
 	n := 600
 	if r.Thorough {
-		n = 20000
+		n = 150000
 	}
 	// ---------------- (1) library API
 	for i := 0; i < n; i++ {
@@ -144,9 +144,17 @@ func run(r *mon.Run) {
 		var ibs *integrityblock.IntegrityBlockSigner
 		var seqDesc []string
 		bad := false
+		var prevPub ed25519.PublicKey
+		var prevPriv ed25519.PrivateKey
 		for k := 0; k < nops && !bad; k++ {
 			pub, priv := gen.EdKey(g)
 			otherPub, _ := gen.EdKey(g)
+			// the same key pair as the previous operation in half of the cases (counter-signing / re-signing with one key:
+			// a mismatching signature is no more acceptable because the claimed key is already in the stack)
+			if k > 0 && g.Bool() {
+				pub, priv = prevPub, prevPriv
+			}
+			prevPub, prevPriv = pub, priv
 			kind := mon.Pick(g, strategies)
 			var st integrityblock.ISigningStrategy = strategy{kind: kind, priv: priv, other: otherPub}
 			var keyBuf ed25519.PrivateKey
@@ -303,7 +311,7 @@ func run(r *mon.Run) {
 	}
 	m := 60
 	if r.Thorough {
-		m = 1500
+		m = 6000
 	}
 	type scen struct {
 		In, Out, Strategy, Seed, Seed2 string
@@ -415,7 +423,7 @@ func run(r *mon.Run) {
 	// ---------------- (3) the built CLI
 	c := 12
 	if r.Thorough {
-		c = 200
+		c = 800
 	}
 	for i := 0; i < c; i++ {
 		if !r.Mine(i) {
